@@ -21,6 +21,7 @@ type Solver struct {
 	pre     []string
 	cmd     *exec.Cmd
 	in      io.WriteCloser
+	bw      *bufio.Writer
 	lines   chan string
 	emitted map[int]bool
 	Queries int
@@ -55,6 +56,7 @@ func (s *Solver) start() error {
 		return err
 	}
 	s.cmd, s.in = cmd, in
+	s.bw = bufio.NewWriterSize(in, 1<<16)
 	s.emitted = map[int]bool{}
 	s.lines = make(chan string, 1024)
 	s.dead = false
@@ -90,7 +92,8 @@ func (s *Solver) send(line string) {
 	if s.log != nil {
 		fmt.Fprintln(s.log, line)
 	}
-	io.WriteString(s.in, line+"\n")
+	s.bw.WriteString(line)
+	s.bw.WriteByte('\n')
 }
 
 func (s *Solver) emit(t *Term) {
@@ -123,6 +126,7 @@ func (s *Solver) emit(t *Term) {
 
 // readLine returns the next non-empty output line, or an "(error" line on timeout / death.
 func (s *Solver) readLine(deadline time.Time) string {
+	s.bw.Flush()
 	for {
 		d := time.Until(deadline)
 		if d <= 0 {
@@ -331,6 +335,7 @@ func (s *Solver) Close() {
 		return
 	}
 	s.send("(exit)")
+	s.bw.Flush()
 	s.in.Close()
 	done := make(chan struct{})
 	go func() { s.cmd.Wait(); close(done) }()
